@@ -4,7 +4,7 @@
    exactly the first (header length) bits of b; for a stack parser fields ++ payload = b.
    Only statements; proofs in theories/ParserTiling.v. *)
 From Coq Require Import ZArith List Bool.
-From MS Require Import PyBase Bits Schc Parsers ParserTiling SchcSpec SchcCodec.
+From MS Require Import PyBase Bits Schc Parsers ParserTiling SchcSpec SchcCodec Buffer BufferAbs SchcBytes ParserBytes ParserRefine EndToEnd.
 Import ListNotations.
 Open Scope Z_scope.
 
@@ -33,6 +33,22 @@ Proof.
   - apply decompress_nocompression. exact Hf.
 Qed.
 
+(* the same at the byte level: the byte-level parsers (ParserBytes.v: every slice, comparison and integer read as buffer.py
+   performs it on bytes) applied to a canonical left-padded packet Buffer give field Buffers and a payload Buffer whose bits,
+   in order, are the bits of the packet; the lengths add up *)
+Theorem c07_packet_bytes s b bfs bpl : canon b -> bside b = LEFT -> bfactory s b = Ok (bfs, bpl) ->
+  concat (map (fun f => abs (bf_val f)) bfs) ++ abs bpl = abs b.
+Proof. exact (bfactory_tiles s b bfs bpl). Qed.
+Theorem c07_packet_bytes_length s b bfs bpl : canon b -> bside b = LEFT -> bfactory s b = Ok (bfs, bpl) ->
+  fold_right (fun f n => blen (bf_val f) + n) 0 bfs + blen bpl = blen b.
+Proof. exact (bfactory_tiles_length s b bfs bpl). Qed.
+(* the byte-level parsers refine the bit-level ones: same outcome (fields, payload or exception) *)
+Theorem c07_bytes_refine s b : canon b -> bside b = LEFT -> same_outcome pkt_rel (bfactory s b) (factory s (abs b)).
+Proof. exact (bfactory_refines s b). Qed.
+Example c07_bytes_ex : exists bfs bpl, bfactory S_UDP ex_packet = Ok (bfs, bpl) /\
+  concat (map (fun f => abs (bf_val f)) bfs) ++ abs bpl = abs ex_packet /\ length bfs = 4%nat /\ blen bpl = 24.
+Proof. exact bfactory_tiles_ex. Qed.
+
 Example c07_ex : exists fs pl, factory S_UDP (bits_of 64 0 ++ [true;false;true]) = Ok (fs, pl) /\ pl = [true;false;true].
 Proof. eexists. eexists. vm_compute. split; reflexivity. Qed.
 
@@ -43,4 +59,7 @@ Print Assumptions c07_ipv6.
 Print Assumptions c07_ipv4.
 Print Assumptions c07_header_length.
 Print Assumptions c07_packet.
+Print Assumptions c07_packet_bytes.
+Print Assumptions c07_packet_bytes_length.
+Print Assumptions c07_bytes_refine.
 Print Assumptions c07_no_compression.
